@@ -219,9 +219,13 @@ theorem mem_exec_mov64 (c : Cfg) (σ : St) (src dst nx : Nat) :
 theorem mem_rel0_write (retAddr : Nat) (σ : St) (s : State) (a : Nat) (bs : List (BitVec 8)) (m' : Memory)
     (h : Rel0 retAddr σ s) (hw : 0 < bs.length) (hwr : s.mem.writeBytes? a bs = some m') :
     ∃ xm', writeMem σ.mem a bs = some xm' ∧ ∀ σ' : St, σ'.reg = σ.reg → σ'.mem = xm' →
-      Rel0 retAddr σ' { s with mem := m' } ∧ topBytes σ' { s with mem := m' } = topBytes σ s := by
+      Rel0 retAddr σ' { s with mem := m' } ∧ topBytes σ' { s with mem := m' } = topBytes σ s ∧
+      CallersKept σ σ' s := by
   obtain ⟨xm', hwm, hrel, hsb, hmb, htop, hlow⟩ := mem_write σ.mem s.mem a bs m' h.mem hw hwr
-  refine ⟨xm', hwm, fun σ' hr hm => ⟨⟨?_, ?_, ?_, ?_, ?_, ?_⟩, ?_⟩⟩
+  obtain ⟨lower, hlast, hroom⟩ := h.room
+  obtain ⟨hlast', hend, hrd⟩ := hlow lower hlast
+  have hrsp := h.rsp
+  refine ⟨xm', hwm, fun σ' hr hm => ⟨⟨?_, ?_, ?_, ?_, ?_, ?_⟩, ?_, ?_⟩⟩
   · intro k hk
     rw [mem_get_congr σ σ' hr]
     exact h.regs k hk
@@ -232,12 +236,15 @@ theorem mem_rel0_write (retAddr : Nat) (σ : St) (s : State) (a : Nat) (bs : Lis
   · rw [mem_get_congr σ σ' hr]
     show _ = m'.stack.base
     rw [hsb]; exact h.rsp
-  · have := h.rsp
-    rw [mem_get_congr σ σ' hr, hm, hlow _ 8 (by omega) (by omega) (by omega)]
+  · rw [mem_get_congr σ σ' hr, hm, hrd _ 8 (by omega) (by omega)]
     exact h.ret
-  · exact h.frames
+  · rw [mem_get_congr σ σ' hr, hm]
+    exact ⟨lower, hlast', hroom⟩
   · show readMem σ'.mem (m'.stack.base + 512) 56 = readMem σ.mem (s.mem.stack.base + 512) 56
     rw [hm, hsb]; exact htop
+  · intro r w h1 h2
+    rw [hm]
+    exact hrd r w (by omega) h2
 
 /-! ### one lemma per instruction shape -/
 
@@ -260,7 +267,7 @@ theorem mem_sim_load (i : Insn) (sz w : Nat) (hsz : sz / 8 = w) (hw : 0 < w)
     mem_addrOf σ _ x _ (by rw [hrel.regs _ hs, hx])
   have hrm := mem_read _ _ _ _ _ hrel.mem hw hrd
   refine ⟨1, _, mem_stepsN_single c σ _ (hstep.trans (mem_exec_load c σ sz w _ _ _ _ _ bs hsz hga hrm)), ?_, rfl,
-    rfl, rfl, rfl, Or.inl ⟨hpc, rfl⟩⟩
+    rfl, rfl, rfl, rfl, callersKept_of_mem _ _ _ rfl, Or.inl ⟨hpc, rfl⟩⟩
   exact rel0_wr _ _ _ _ _ hd (rel0_congr _ _ _ _ hrel rfl rfl)
 
 /-- `stx{b,h,w,dw}` -/
@@ -283,9 +290,9 @@ theorem mem_sim_store (i : Insn) (sz w : Nat) (hsz : sz / 8 = w) (hw : 0 < w)
     mem_addrOf σ _ d _ (by rw [hrel.regs _ hd, hdv])
   obtain ⟨xm', hwm, hafter⟩ := mem_rel0_write retAddr σ s _ _ m' hrel (by rw [mem_leBytes_length]; exact hw) hwb
   have hbs : leBytes (σ.get (regOf i.src.toNat)).toNat w = leBytes x.toNat w := by rw [hrel.regs _ hs, hx]
-  obtain ⟨hrel', htop⟩ := hafter { σ with rip := c.codeBase + b, mem := xm' } rfl rfl
+  obtain ⟨hrel', htop, hck⟩ := hafter { σ with rip := c.codeBase + b, mem := xm' } rfl rfl
   exact ⟨1, _, mem_stepsN_single c σ _ (hstep.trans (mem_exec_store c σ sz w _ _ _ _ _ _ xm' hsz hga hbs hwm)), hrel', htop,
-    rfl, rfl, rfl, Or.inl ⟨hpc, rfl⟩⟩
+    rfl, rfl, rfl, rfl, hck, Or.inl ⟨hpc, rfl⟩⟩
 
 /-- `st{b,h,w,dw}`: `im` is the immediate the x86 instruction carries -/
 theorem mem_sim_storeI (i : Insn) (sz w : Nat) (im : BitVec 32) (hsz : sz / 8 = w) (hw : 0 < w)
@@ -306,9 +313,9 @@ theorem mem_sim_storeI (i : Insn) (sz w : Nat) (im : BitVec 32) (hsz : sz / 8 = 
   have hga : X86.addrOf σ (regOf i.dst.toNat) i.off.toInt = (d + i.off.signExtend 64).toNat :=
     mem_addrOf σ _ d _ (by rw [hrel.regs _ hd, hdv])
   obtain ⟨xm', hwm, hafter⟩ := mem_rel0_write retAddr σ s _ _ m' hrel (by rw [mem_leBytes_length]; exact hw) hwb
-  obtain ⟨hrel', htop⟩ := hafter { σ with rip := c.codeBase + b, mem := xm' } rfl rfl
+  obtain ⟨hrel', htop, hck⟩ := hafter { σ with rip := c.codeBase + b, mem := xm' } rfl rfl
   exact ⟨1, _, mem_stepsN_single c σ _ (hstep.trans (mem_exec_storeI c σ sz w _ _ im _ _ _ xm' hsz hga him hwm)), hrel', htop,
-    rfl, rfl, rfl, Or.inl ⟨hpc, rfl⟩⟩
+    rfl, rfl, rfl, rfl, hck, Or.inl ⟨hpc, rfl⟩⟩
 
 /-- atomic add; `f x` is the addend of the eBPF side, equal to the source register modulo `2^(8w)` -/
 theorem mem_sim_lockAdd (i : Insn) (wb : Bool) (w : Nat) (f : BitVec 64 → BitVec 64) (hwb : (if wb then 8 else 4) = w) (hw : 0 < w)
@@ -336,9 +343,9 @@ theorem mem_sim_lockAdd (i : Insn) (wb : Bool) (w : Nat) (f : BitVec 64 → BitV
     rw [hrel.regs _ hs, hx]
     apply mem_leBytes_congr
     rw [Nat.add_mod, ← hf x, ← Nat.add_mod]
-  obtain ⟨hrel', htop⟩ := hafter { σ with rip := c.codeBase + b, mem := xm', flags := none } rfl rfl
+  obtain ⟨hrel', htop, hck⟩ := hafter { σ with rip := c.codeBase + b, mem := xm', flags := none } rfl rfl
   exact ⟨1, _, mem_stepsN_single c σ _ (hstep.trans (mem_exec_lockAdd c σ wb w _ _ _ _ _ bs _ xm' hwb hga hrm hbs hwm)),
-    hrel', htop, rfl, rfl, rfl, Or.inl ⟨hpc, rfl⟩⟩
+    hrel', htop, rfl, rfl, rfl, rfl, hck, Or.inl ⟨hpc, rfl⟩⟩
 
 /-- `emit_load_packet` from base register r10 or r11: loads `[base + zero-extended imm]` into rax = eBPF r0 -/
 theorem mem_sim_loadPacket (c : Cfg) (tgt : Tgt → Option Nat) (a b : Nat) (σ : St) (s : State) (retAddr sz w rb : Nat)
@@ -443,7 +450,7 @@ theorem mem_sim_ldabs (i : Insn) (sz w : Nat) (hsz : sz / 8 = w) (hw : 0 < w)
     rw [← haddr] at hrd
     obtain ⟨k, σ', hsteps, hrel', hmem', hrip', hlog', hmis'⟩ :=
       mem_sim_loadPacket c tgt a b σ s retAddr sz w 10 i.imm bs hcs hrip hrel (Or.inl rfl) hsz hw hrd
-    refine ⟨k, σ', hsteps, hrel', ?_, hlog', hmis', rfl, Or.inl ⟨hpc, hrip'⟩⟩
+    refine ⟨k, σ', hsteps, hrel', ?_, hlog', hmis', rfl, rfl, callersKept_of_mem _ _ _ hmem', Or.inl ⟨hpc, hrip'⟩⟩
     show readMem σ'.mem _ _ = readMem σ.mem _ _
     rw [hmem']
 
@@ -494,7 +501,8 @@ theorem mem_sim_ldind (i : Insn) (sz w : Nat) (hsz : sz / 8 = w) (hw : 0 < w)
   obtain ⟨k, σ', hsteps, hrel', hmem', hrip', hlog', hmis'⟩ :=
     mem_sim_loadPacket c tgt a2 b σ2 s retAddr sz w 11 i.imm bs hcs2 hrip2 hrel2 (Or.inr rfl) hsz hw hrd
   refine ⟨k + 1 + 1, σ', mem_stepsN_cons c σ σ1 _ (k + 1) (hstep1.trans hex1)
-    (mem_stepsN_cons c σ1 σ2 _ k (hstep2.trans hex2) hsteps), hrel', ?_, hlog'.trans hlog2, hmis'.trans hmis2, rfl, Or.inl ⟨hpc, hrip'⟩⟩
+    (mem_stepsN_cons c σ1 σ2 _ k (hstep2.trans hex2) hsteps), hrel', ?_, hlog'.trans hlog2, hmis'.trans hmis2, rfl, rfl,
+    callersKept_of_mem _ _ _ (hmem'.trans hmem2), Or.inl ⟨hpc, hrip'⟩⟩
   show readMem σ'.mem _ _ = readMem σ.mem _ _
   rw [hmem', hmem2]
 
